@@ -148,3 +148,84 @@ package l4proxy
 //@ invariant cap(best) == 0 || fresh(best)
 //@ ensures[assumed] result != nil ==> member(upstreams, result)
 //@ ensures[assumed] result == nil ==> allnil(upstreams)
+
+// ------------------------------------------------------------------ dialling and cleanup (C03, C11)
+// dialPeers opens one connection per peer of the chosen upstream. Cleanup (C03): when it fails, every
+// connection it opened has been closed again (the number of open connections is what it was); when it
+// succeeds, exactly the returned connections are open. Accounting (C11): when it succeeds, the
+// connection is counted on every peer of the upstream (numConns is what max_connections and
+// least_conn look at), when it fails nothing stays counted.
+// slot(c): the index at which c was appended to the result (makes the connections pairwise distinct).
+//@ ghost slot(c net.Conn) int
+//@ func (h *Handler) dialPeers(upstream *Upstream, repl *caddy.Replacer, down *layer4.Connection) (conns []net.Conn, err error)
+//@ requires h != nil && h.logger != nil && repl != nil && wfcx(down)
+//@ requires upstream != nil && len(upstream.peers) <= 1024 && forall i int :: 0 <= i && i < len(upstream.peers) ==> upstream.peers[i] != nil
+//@ requires[inv] isnil(ctxval(down.Context, layer4.VarsCtxKey).(map[string]any)["l4.proxy_protocol.conn"]) || istype(ctxval(down.Context, layer4.VarsCtxKey).(map[string]any)["l4.proxy_protocol.conn"], net.Conn)
+//@ requires[inv] h.HealthChecks == nil || h.HealthChecks.Passive == nil || h.HealthChecks.Passive.logger != nil
+//@ requires[inv] isnil(ctxval(down.Context, layer4.VarsCtxKey).(map[string]any)["tls_client_hellos"]) || istype(ctxval(down.Context, layer4.VarsCtxKey).(map[string]any)["tls_client_hellos"], []l4tls.ClientHelloInfo)
+//@ safety C03
+//@ assigns[C03] nothing
+//@ modifies ghost:nopen, ghost:isopen, ghost:slot, github.com/mholt/caddy-l4/modules/l4proxy.peer#fails, elem:iface:net.Conn.data, elem:iface:net.Conn.tag
+//@ loop 0 invariant isnil(upConns) || fresh(upConns)
+//@ loop 0 invariant len(upConns) == rangeindex + 1 && nopen() == old(nopen()) + len(upConns)
+//@ loop 1 invariant -1 <= rangeindex && rangeindex < len(upConns) && nopen() == old(nopen()) + len(upConns) - (rangeindex + 1)
+//@ loop 1 invariant forall k int :: rangeindex < k && k < len(upConns) ==> isobj(upConns[k]) && allocated(upConns[k])
+//@ loop 1 invariant forall k int :: rangeindex < k && k < len(upConns) ==> slot(upConns[k]) == k
+//@ loop 1 invariant forall k int :: rangeindex < k && k < len(upConns) ==> isopen(upConns[k])
+//@ loop 0 invariant forall k int :: 0 <= k && k < len(upConns) ==> isobj(upConns[k]) && allocated(upConns[k]) && isopen(upConns[k]) && slot(upConns[k]) == k
+//@ aftercall[C03] append 1 slot(up) == len(upConns)
+//@ ensures[C03] err != nil ==> nopen() == old(nopen())
+//@ ensures[C03] err == nil ==> nopen() == old(nopen()) + len(conns) && len(conns) == len(upstream.peers)
+//@ ensures[C03] err == nil ==> forall k int :: 0 <= k && k < len(conns) ==> isobj(conns[k]) && allocated(conns[k]) && isopen(conns[k]) && slot(conns[k]) == k
+
+// Passive health checking: remembers one failure of p for fail_duration (the forgetting goroutine is
+// not followed by the verifier).
+//@ func (h *Handler) countFailure(p *peer)
+//@ requires h != nil && p != nil
+//@ requires[inv] h.HealthChecks == nil || h.HealthChecks.Passive == nil || h.HealthChecks.Passive.logger != nil
+//@ safety C03
+//@ assigns[C03] p.fails
+
+// The selection policy interface as the handler uses it: a policy returns nil or a member of the pool
+// (what each policy guarantees beyond that is C10) and touches no connection.
+//@ func (s Selector) Select(pool UpstreamPool, cx *layer4.Connection) (u *Upstream)
+//@ requires validpool(pool)
+//@ assigns nothing
+//@ ensures u == nil || member(pool, u)
+
+// tryAgain only waits.
+//@ func (lb LoadBalancing) tryAgain(ctx caddy.Context, start time.Time) (again bool)
+//@ requires !isnil(ctx.Context)
+//@ safety C03
+//@ assigns[C03] nothing
+
+// proxy relays until both directions are finished. It runs goroutines, which the verifier does not
+// follow: its contract is assumed. It reads and writes the connections (their stream positions,
+// deadlines, open state and byte buffers may change) and leaves the slice of upstream connections alone.
+//@ func (h *Handler) proxy(down *layer4.Connection, upConns []net.Conn)
+//@ trusted
+//@ requires h != nil && down != nil
+//@ assigns down.offset, down.buf, down.bytesRead, down.bytesWritten
+//@ modifies ghost:rpos, ghost:armed, ghost:isopen, ghost:nopen, elem:uint8
+
+// Handle: every failed attempt leaves no connection open (C03), and the deferred cleanup closes every
+// upstream connection that the successful attempt opened.
+//@ func (h *Handler) Handle(down *layer4.Connection, next layer4.Handler) (err error)
+//@ requires h != nil && h.logger != nil && wfcx(down) && h.LoadBalancing != nil && !isnil(h.LoadBalancing.SelectionPolicy)
+//@ requires[inv] !isnil(h.ctx.Context)
+//@ requires[inv] validpool(h.Upstreams) && forall i int :: 0 <= i && i < len(h.Upstreams) ==> len(h.Upstreams[i].peers) <= 1024
+//@ requires[inv] isnil(ctxval(down.Context, layer4.VarsCtxKey).(map[string]any)["l4.proxy_protocol.conn"]) || istype(ctxval(down.Context, layer4.VarsCtxKey).(map[string]any)["l4.proxy_protocol.conn"], net.Conn)
+//@ requires[inv] h.HealthChecks == nil || h.HealthChecks.Passive == nil || h.HealthChecks.Passive.logger != nil
+//@ requires[inv] isnil(ctxval(down.Context, layer4.VarsCtxKey).(map[string]any)["tls_client_hellos"]) || istype(ctxval(down.Context, layer4.VarsCtxKey).(map[string]any)["tls_client_hellos"], []l4tls.ClientHelloInfo)
+//@ safety C03
+//@ reveal validpeers
+//@ loop 0 invariant nopen() == old(nopen())
+//@ ensures[C03] err != nil ==> nopen() == old(nopen())
+//@ atcall[C03] proxy 1 nopen() == old(nopen()) + len(upConns) && forall k int :: 0 <= k && k < len(upConns) ==> isobj(upConns[k]) && isopen(upConns[k])
+
+// The deferred cleanup: afterwards none of the upstream connections is open.
+//@ func (h *Handler) Handle$1()
+//@ requires forall k int :: 0 <= k && k < len(upConns) ==> isobj(upConns[k])
+//@ safety C03
+//@ invariant forall k int :: 0 <= k && k <= rangeindex ==> !isopen(upConns[k])
+//@ ensures[C03] forall k int :: 0 <= k && k < len(upConns) ==> !isopen(upConns[k])
